@@ -2,6 +2,7 @@ package main
 
 import (
 	"encoding/json"
+	"os/exec"
 	"flag"
 	"fmt"
 	"os"
@@ -160,6 +161,32 @@ func cmdCheck(args []string) {
 	}
 	solveAll(obls, timeout, portfolio, 6)
 
+	// evaluated base cases and bounded stand-ins (labelled bounded; never counted as proved)
+	btests := []string{"TestVerifGlobals"}
+	if *tier == "thorough" {
+		switch prop {
+		case "C19", "C04":
+			btests = append(btests, "TestVerifNumDigitsEstimate")
+		case "C16", "C05", "C18":
+			btests = append(btests, "TestVerifBigIntBridge")
+		}
+	}
+	bounded, boundedFail := runBounded(W, btests)
+	if *tier == "thorough" {
+		// the lemma library behind the ground instances and the axioms: re-checked by Lean 4 + Mathlib
+		cmd := exec.Command("lake", "env", "lean", filepath.Join(verifSrcDir(), "lemmas", "Apd.lean"))
+		cmd.Dir = "/opt/veriftools/mathlib4"
+		out, err := cmd.CombinedOutput()
+		st := "checked"
+		if err != nil || strings.Contains(string(out), "error") || strings.Contains(string(out), "sorry") {
+			st = "FAILED: " + truncate(string(out), 500)
+			if boundedFail == "" {
+				boundedFail = "lean lemma library: " + st
+			}
+		}
+		bounded = append(bounded, map[string]string{"name": "lean-lemma-library", "label": "machine-checked (Lean 4.33 + Mathlib)", "result": st})
+	}
+
 	known := loadKnown()
 	isKnown := func(o *Obligation) *KnownFinding {
 		for i := range known {
@@ -273,6 +300,7 @@ func cmdCheck(args []string) {
 			"not_covered":              notCovered[prop],
 			"known_findings":           knownHit,
 			"generator_problems":       problems,
+			"bounded_standins":         bounded,
 			"exhaustive":               false,
 		},
 		"assumptions": assumptions,
@@ -283,6 +311,14 @@ func cmdCheck(args []string) {
 	data, _ := json.MarshalIndent(ev, "", " ")
 	os.WriteFile(filepath.Join(verifDir(), "evidence", prop+".json"), data, 0o644)
 	fmt.Printf("%s: %d obligations, %d discharged, %d known findings, %d violations, %d functions, %.1fs\n", prop, len(obls), discharged, len(knownHit), len(violations), len(fl), time.Since(start).Seconds())
+	if boundedFail != "" {
+		os.MkdirAll(repDir, 0o755)
+		bp := filepath.Join(repDir, "bounded.json")
+		bd, _ := json.MarshalIndent(map[string]interface{}{"property": prop, "obligation": "bounded stand-in / evaluated base case", "output": boundedFail}, "", " ")
+		os.WriteFile(bp, bd, 0o644)
+		fmt.Printf("VIOLATION property=%s replay=%s an evaluated assumption of the proofs does not hold on this tree\n", prop, bp)
+		os.Exit(1)
+	}
 	if len(violations) > 0 || len(problems) > 0 || len(obls) == 0 {
 		if len(obls) == 0 {
 			fmt.Println("no obligations generated: vacuous check")
@@ -372,4 +408,46 @@ func truncate(s string, n int) string {
 		return s[:n] + "..."
 	}
 	return s
+}
+
+// runBounded runs the in-package harness tests (global invariant base case, bounded stand-ins) against the working tree.
+func runBounded(W *World, tests []string) ([]map[string]string, string) {
+	dir, err := os.MkdirTemp("", "apdvc-bounded")
+	if err != nil {
+		return nil, err.Error()
+	}
+	defer os.RemoveAll(dir)
+	ov := map[string]map[string]string{"Replace": {filepath.Join(W.repoDir, "zz_verif_bounded_test.go"): filepath.Join(verifSrcDir(), "harness", "bounded_test.go")}}
+	ovData, _ := json.Marshal(ov)
+	ovFile := filepath.Join(dir, "overlay.json")
+	os.WriteFile(ovFile, ovData, 0o644)
+	cmd := exec.Command("go", "test", "-overlay", ovFile, "-vet=off", "-count=1", "-timeout", "600s", "-run", "^("+strings.Join(tests, "|")+")$", "-v", ".")
+	cmd.Dir = W.repoDir
+	cmd.Env = append(os.Environ(), "GOFLAGS=-mod=mod", "GOPROXY=off", "GOSUMDB=off", "GOTOOLCHAIN=local")
+	out, err := cmd.CombinedOutput()
+	var res []map[string]string
+	for _, line := range strings.Split(string(out), "\n") {
+		if strings.HasPrefix(line, "BOUNDED ") {
+			m := map[string]string{}
+			for _, f := range strings.Fields(line[8:]) {
+				if kv := strings.SplitN(f, "=", 2); len(kv) == 2 {
+					m[kv[0]] = kv[1]
+				}
+			}
+			m["label"] = "bounded"
+			res = append(res, m)
+		}
+	}
+	if err != nil || len(res) != len(tests) {
+		return res, truncate(string(out), 3000)
+	}
+	return res, ""
+}
+
+// verifSrcDir is where the committed harness lives (always /verif, also when outputs go elsewhere).
+func verifSrcDir() string {
+	if d := os.Getenv("APDVC_SRC"); d != "" {
+		return d
+	}
+	return "/verif"
 }
